@@ -224,7 +224,7 @@ func parseWKT(tn string, toks []wtok, counts []int) string {
 // ---------------------------------------------------------------- check
 
 func checkC17(c *Ctx) {
-	c.Rule("C17.R1", "the text emitted for each supported type, with 1, 2 and 3 members at every nesting level, is accepted by the OGC WKT grammar (KEYWORD ( … ), members parenthesised and comma-separated, 'x y' pairs) and lists every coordinate once in storage order")
+	c.Rule("C17.R1", "the text emitted for each supported type, with 1, 2 and 3 members at every nesting level, is accepted by the OGC WKT grammar (KEYWORD ( … ), members parenthesised and comma-separated, 'x y' pairs) and lists every coordinate once in storage order, each as a text that parses back to it — with ordinates known by rank only, and again with every ordinate in each of ten regions of the float64 line (fractions, whole numbers, whole numbers between 2^53 and 2^63, beyond the int64 range, tiny, both zeros, both signs), where a formatter that branches on the value is followed: the digits of an exact integer conversion are accepted, those of a truncated or overflowed one and `0` for negative zero are not")
 	c.Rule("C17.R2", "every strconv float formatting in the package uses precision -1, bit size 64 and a format in {e,E,f,g,G} (shortest text that parses back to the same float64)")
 	c.Rule("C17.R4", "the text Encode returns is freshly allocated in the call (no package-level buffer, no sync.Pool object), so a text the caller keeps is not overwritten by a later Encode")
 	c.Rule("C17.R3", "exactly Point, LineString, MultiLineString, Polygon and MultiPolygon are encoded; every other type reaches the error return")
